@@ -1,12 +1,12 @@
-//@ unit latin1_to
+//@ unit ascii_to
 //@ props C05 C01
 //@ kind P
 //@ def quick NMAX=8
 //@ def thorough NMAX=40
-//@ enforce XML88591Transcoder_transcodeTo
-//@ entry h_latin1_to
+//@ enforce XMLASCIITranscoder_transcodeTo
+//@ entry h_ascii_to
 //@ note P: iterations unbounded through the loop contract; buffer LENGTHS are bounded by -DNMAX (srcCount, maxBytes <= NMAX) because cbmc needs finite objects
-//@ note spec: U+00bb encodes to byte b for bb <= FF (ISO/IEC 8859-1); any other UTF-16 unit is unrepresentable: exception under UnRep_Throw, substitution character 0x1A under UnRep_RepChar, never silent truncation. "thrown ==> some unit is unrepresentable" needs an existential and is proved in latin1_w (W)
+//@ note spec: U+00bb encodes to byte b for bb <= 7F (US-ASCII, ANSI X3.4 / ISO 646-US); any other UTF-16 unit is unrepresentable: exception under UnRep_Throw, substitution character 0x1A under UnRep_RepChar, never silent truncation. "thrown ==> some unit is unrepresentable" needs an existential and is proved in ascii_w (W)
 //@ note XMLString::binToText (exception message text only), getMemoryManager() and getEncodingName() are dropped
 #define VERIF_DEFINE_GHOSTS
 #include "verif_prelude.h"
@@ -16,9 +16,8 @@ typedef int UnRepOpts;
 
 struct { XMLCh a[NMAX]; } SRC;
 struct { XMLByte a[NMAX]; } OUT;
-/* the harness hands the buffers end-aligned; the contract names the elements through the objects (precondition below) instead of
- * through the pointers: after the loop havoc cbmc no longer knows what a pointer parameter points to and every srcData[G] becomes
- * a case split over all address-taken objects (probed: 850 K variables, 120 s, against 40 K / 2 s this way) */
+/* the harness hands the buffers end-aligned; the contract names the elements through the objects (first precondition) instead of
+ * through the pointer parameters (cost: see latin1_to) */
 #define CLAMP(k) (((k) < NMAX) ? (k) : 0)      /* keeps the index inside the object where the guard of the clause is false */
 #define SRCAT(i) (SRC.a[CLAMP((NMAX - srcCount) + (i))])
 #define OUTAT(i) (OUT.a[CLAMP((NMAX - maxBytes) + (i))])
@@ -26,42 +25,41 @@ struct { XMLByte a[NMAX]; } OUT;
 XMLSize_t G;
 #define GI(lim) ((G < (lim)) ? G : 0)
 #define MINC ((srcCount < maxBytes) ? srcCount : maxBytes)
-#define DONE ((XMLSize_t)(__CPROVER_POINTER_OFFSET(destPtr) - __CPROVER_POINTER_OFFSET(toFill)))
 
-/*@extract src/xercesc/util/XML88591Transcoder.cpp XML88591Transcoder::transcodeTo
+/*@extract src/xercesc/util/XMLASCIITranscoder.cpp XMLASCIITranscoder::transcodeTo
 sub XMLString::binToText\s*\([^;]*\)\s*; =>
 contract
+__CPROVER_requires(srcData == SRC.a + (NMAX - srcCount) && toFill == OUT.a + (NMAX - maxBytes))
 __CPROVER_requires(G < NMAX && srcCount <= NMAX && maxBytes <= NMAX && !verif_thrown)
 __CPROVER_requires(options == UnRep_Throw || options == UnRep_RepChar)
-__CPROVER_requires(srcData == SRC.a + (NMAX - srcCount) && toFill == OUT.a + (NMAX - maxBytes))
 __CPROVER_requires(__CPROVER_r_ok(srcData, srcCount * sizeof(XMLCh)))
 __CPROVER_requires(__CPROVER_w_ok(toFill, maxBytes))
 __CPROVER_requires(__CPROVER_w_ok(charsEaten_p, sizeof(XMLSize_t)))
 __CPROVER_assigns(__CPROVER_object_upto(toFill, maxBytes), *charsEaten_p, verif_thrown, verif_throw_type, verif_throw_code)
 /* T_iface + progress: unless it reports, it encodes everything that is available and fits, one byte per unit */
 __CPROVER_ensures(!verif_thrown ==> (__CPROVER_return_value == MINC && *charsEaten_p == __CPROVER_return_value))
-/* C05: identity on 0..FF */
-__CPROVER_ensures((!verif_thrown && G < __CPROVER_return_value && SRCAT(G) < 256) ==> OUTAT(G) == (XMLByte)SRCAT(G))
+/* C05: identity on 0..7F */
+__CPROVER_ensures((!verif_thrown && G < __CPROVER_return_value && SRCAT(G) < 0x80) ==> OUTAT(G) == (XMLByte)SRCAT(G))
 /* C05: unrepresentable => substitution character, only when the caller asked for it */
-__CPROVER_ensures((!verif_thrown && G < __CPROVER_return_value && SRCAT(G) >= 256) ==> (options == UnRep_RepChar && OUTAT(G) == 0x1A))
+__CPROVER_ensures((!verif_thrown && G < __CPROVER_return_value && SRCAT(G) >= 0x80) ==> (options == UnRep_RepChar && OUTAT(G) == 0x1A))
 /* C05: unrepresentable => report under UnRep_Throw (ghost form of: exists unrepresentable unit in the processed range ==> thrown) */
-__CPROVER_ensures((options == UnRep_Throw && G < MINC && SRCAT(G) >= 256) ==> verif_thrown)
+__CPROVER_ensures((options == UnRep_Throw && G < MINC && SRCAT(G) >= 0x80) ==> verif_thrown)
 __CPROVER_ensures(verif_thrown ==> (options == UnRep_Throw && verif_throw_type == VT_TranscodingException && verif_throw_code == XMLExcepts_Trans_Unrepresentable && __CPROVER_return_value == 0))
 __CPROVER_ensures(verif_thrown ==> *charsEaten_p == __CPROVER_old(*charsEaten_p))
 /* frame inside the buffer, also on the exceptional path */
 __CPROVER_ensures((G >= MINC && G < maxBytes) ==> OUTAT(G) == __CPROVER_old(OUTAT(GI(maxBytes))))
 loop 1
-__CPROVER_assigns(srcPtr, destPtr, __CPROVER_object_upto(toFill, maxBytes), verif_thrown, verif_throw_type, verif_throw_code)
-__CPROVER_loop_invariant(!verif_thrown)
-__CPROVER_loop_invariant(__CPROVER_same_object(destPtr, toFill) && __CPROVER_POINTER_OFFSET(toFill) <= __CPROVER_POINTER_OFFSET(destPtr) && DONE <= countToDo)
-__CPROVER_loop_invariant(__CPROVER_same_object(srcPtr, srcData) && __CPROVER_POINTER_OFFSET(srcPtr) == __CPROVER_POINTER_OFFSET(srcData) + 2 * DONE)
-__CPROVER_loop_invariant((G < DONE && SRCAT(G) < 256) ==> OUTAT(G) == (XMLByte)SRCAT(G))
-__CPROVER_loop_invariant((G < DONE && SRCAT(G) >= 256) ==> (options == UnRep_RepChar && OUTAT(G) == 0x1A))
-__CPROVER_loop_invariant((G >= DONE && G < maxBytes) ==> OUTAT(G) == __CPROVER_loop_entry(OUTAT(GI(maxBytes))))
-__CPROVER_decreases(countToDo - DONE)
+__CPROVER_assigns(index, srcPtr, outPtr, __CPROVER_object_upto(toFill, maxBytes), verif_thrown, verif_throw_type, verif_throw_code)
+__CPROVER_loop_invariant(!verif_thrown && index <= countToDo)
+__CPROVER_loop_invariant(__CPROVER_same_object(outPtr, toFill) && __CPROVER_POINTER_OFFSET(outPtr) == __CPROVER_POINTER_OFFSET(toFill) + index)
+__CPROVER_loop_invariant(__CPROVER_same_object(srcPtr, srcData) && __CPROVER_POINTER_OFFSET(srcPtr) == __CPROVER_POINTER_OFFSET(srcData) + 2 * index)
+__CPROVER_loop_invariant((G < index && SRCAT(G) < 0x80) ==> OUTAT(G) == (XMLByte)SRCAT(G))
+__CPROVER_loop_invariant((G < index && SRCAT(G) >= 0x80) ==> (options == UnRep_RepChar && OUTAT(G) == 0x1A))
+__CPROVER_loop_invariant((G >= index && G < maxBytes) ==> OUTAT(G) == __CPROVER_loop_entry(OUTAT(GI(maxBytes))))
+__CPROVER_decreases(countToDo - index)
 @*/
 
-void h_latin1_to(void)
+void h_ascii_to(void)
 {
   XMLSize_t n, m, eaten;
   int opt;
@@ -69,6 +67,6 @@ void h_latin1_to(void)
   VERIF_ASSUME(n <= NMAX && m <= NMAX);
   verif_thrown = 0;
   /* end-aligned: any access beyond srcCount / maxBytes leaves the object */
-  XML88591Transcoder_transcodeTo(SRC.a + (NMAX - n), n, OUT.a + (NMAX - m), m, &eaten, opt);
+  XMLASCIITranscoder_transcodeTo(SRC.a + (NMAX - n), n, OUT.a + (NMAX - m), m, &eaten, opt);
   VERIF_CANARY("after call");
 }
